@@ -957,8 +957,20 @@ func (c *FuncCtx) callRepo(st *State, key string, recv *recvInfo, x *ast.CallExp
 	if recv != nil {
 		rv = c.adaptRecv(st, recv, sig)
 	}
-	if con != nil && !(con.Assumed && con.Bounded == "" && false) {
-		return c.applyContract(st, con, sig, rv, args, x.Pos(), key)
+	wb := c.pendingWB
+	c.pendingWB = nil
+	if con != nil {
+		savedArgs := c.curCallArgs
+		c.curCallArgs = x.Args
+		r := c.applyContract(st, con, sig, rv, args, x.Pos(), key)
+		c.curCallArgs = savedArgs
+		for _, w := range wb {
+			c.assign(st, w.target, c.loadStruct(st, w.ref, w.t))
+		}
+		return r
+	}
+	if len(wb) > 0 {
+		limitf("%s: &field argument to a function without contract", c.eng.posStr(x.Pos()))
 	}
 	if r, ok := c.inlinePure(st, key, fd, sig, rv, args, x.Pos()); ok {
 		return r
@@ -1026,6 +1038,23 @@ func (c *FuncCtx) evalArgs(st *State, sig *types.Signature, x *ast.CallExpr) []*
 	}
 	for i, a := range x.Args {
 		var v *Val
+		if u, ok := ast.Unparen(a).(*ast.UnaryExpr); ok && u.Op == token.AND && !c.inSpec(st) {
+			// &x.f with f a struct-valued field: the callee gets a temporary
+			// object holding the field's value; it is copied back after the call
+			// (sound as long as the callee does not keep the pointer)
+			if sel, ok := ast.Unparen(u.X).(*ast.SelectorExpr); ok {
+				if ft := c.typeOf(sel); ft != nil && c.eng.isHeapStruct(ft) {
+					if _, isPkg := c.eng.info.Uses[selRootIdent(sel)].(*types.PkgName); !isPkg {
+						cur := c.eval(st, sel)
+						ref := c.alloc(st, ft)
+						c.storeStruct(st, ref, cur)
+						c.pendingWB = append(c.pendingWB, writeBack{target: sel, ref: ref, t: ft})
+						args = append(args, &Val{T: params.At(i).Type(), S: ref, Sort: "Int"})
+						continue
+					}
+				}
+			}
+		}
 		if fl, ok := ast.Unparen(a).(*ast.FuncLit); ok {
 			v = &Val{T: params.At(i).Type(), S: c.fresh("closure", "Int"), Sort: "Int", Closure: fl}
 		} else {
@@ -1697,6 +1726,25 @@ func (c *FuncCtx) likeClausesM(st *State, con *Contract, env map[string]*Val, re
 			}
 			f := fmt.Sprintf("(exists (%s) %s)", strings.Join(qs, " "), body)
 			emit(&Clause{Kind: "ensures", Tags: lk.Tags, Text: lk.Text, Line: lk.Line}, li*100, mkImplies(cond.S, f), "like "+lk.Text+" (for some discarded result)")
+		}
+	}
+}
+
+type writeBack struct {
+	target ast.Expr
+	ref    string
+	t      types.Type
+}
+
+func selRootIdent(sel *ast.SelectorExpr) *ast.Ident {
+	for {
+		switch x := ast.Unparen(sel.X).(type) {
+		case *ast.Ident:
+			return x
+		case *ast.SelectorExpr:
+			sel = x
+		default:
+			return nil
 		}
 	}
 }
